@@ -1,9 +1,9 @@
 package main
 
 import (
-	"math/big"
 	"fmt"
 	"go/types"
+	"math/big"
 	"strings"
 
 	"golang.org/x/tools/go/ssa"
